@@ -202,6 +202,10 @@ fn stdio_for(fd: Fd) -> std::io::Result<(Stdio, Option<std::io::PipeReader>)> {
 fn run_child(input: &ChildInput, stdout: Fd, stderr: Fd) -> Result<ChildResult, String> {
     use std::os::unix::process::ExitStatusExt;
     let exe = std::env::current_exe().map_err(|e| e.to_string())?;
+    let exe = match exe.to_str().and_then(|s| s.strip_suffix(" (deleted)")) {
+        Some(s) => std::path::PathBuf::from(s),
+        None => exe,
+    };
     let (so, so_r) = stdio_for(stdout).map_err(|e| e.to_string())?;
     let (se, se_r) = stdio_for(stderr).map_err(|e| e.to_string())?;
     let mut c = PCommand::new(exe);
